@@ -155,21 +155,23 @@ def tensor_desc_c(var, dims, fmt, stored):
     return pre + init
 
 
-def kernel_c(module, prefix):
+def kernel_c(module, prefix, text=None):
+    """text: C source obtained elsewhere (the public generate_code path) instead of printing ``module`` here."""
     bridge.ensure_tensora()
     from tensora.codegen import ir_to_c
 
-    text = ir_to_c(module)
+    if text is None:
+        text = ir_to_c(module)
     return re.sub(r"\b(evaluate|assemble|compute)\(", lambda m: f"{prefix}_{m.group(1)}(", text)
 
 
-def case_function(n, case, module, kinds):
+def case_function(n, case, module, kinds, c_text=None):
     """C source: renamed kernels + a ``case_n`` driver function."""
     _prob, asg, _f = bridge.problem_of(case)
     fns = bridge.functions_of(module)
     params = [d.name.name for d in next(iter(fns.values())).parameters]
     oname = case["target"][0]
-    src = kernel_c(module, f"k{n}") + "\n\n"
+    src = kernel_c(module, f"k{n}", c_text) + "\n\n"
     body = ""
     for nm in params:
         dims = C.tensor_dims(asg, case["sizes"], nm)
@@ -228,8 +230,8 @@ class Batch:
         self.cc = cc
         self.dir = None
 
-    def add(self, n, case, module, kinds=("evaluate", "assemble", "compute")):
-        self.parts.append(case_function(n, case, module, kinds))
+    def add(self, n, case, module, kinds=("evaluate", "assemble", "compute"), c_text=None):
+        self.parts.append(case_function(n, case, module, kinds, c_text))
         self.ns.append(n)
 
     def add_raw(self, n, source):
